@@ -201,6 +201,19 @@ theorem waiter_outcome_etcd (p : Etcd.Params) (s s' : Etcd.State) (st : Etcd.Ste
   | watch j h1 h2 h3 => simp only [Etcd.watch, hi]; exact ⟨fun e => (by cases e), fun e => (by cases e)⟩
   | tick hg => simp only [hi]; exact ⟨fun e => (by cases e), fun e => (by cases e)⟩
 
+/-- **cancel_acquire_ctx_keeps_lock.**  The end (cancellation, deadline) of the context that was
+    passed to `Lock`/`TryLock` is not a release.  etcd: across ANY step other than the holder's own
+    `Unlock` or the loss of its lease — there is no step for "the acquiring context ended" — a holder
+    with a live lease keeps its key and the key stays the oldest, so nobody else can acquire.  Both
+    models: the schedule command `cancelCtx` leaves the state untouched. -/
+theorem cancel_acquire_ctx_keeps_lock (p : Etcd.Params) (s s' : Etcd.State) (hr : Etcd.Reach p s)
+    (st : Etcd.Step p s s') (i : Nat) (hi : s.phase i = .holding) (hl : s.leaseAlive i = true)
+    (h1 : s' ≠ Etcd.unlock s i) (h2 : s' ≠ Etcd.loseLease s i) :
+    ((i, s.myRev i) ∈ s'.keys ∧ ∀ k ∈ s'.keys, s.myRev i ≤ k.2) ∧
+    (∀ ttl j, (Etcd.exec ttl s (.cancelCtx j)).1 = s) ∧
+    (∀ (q : Redis.Params) (r : Redis.State) j, (Redis.exec q r (.cancelCtx j)).1 = r) :=
+  ⟨Etcd.holder_keeps_key hr st i hi hl h1 h2, fun _ _ => rfl, fun _ _ _ => rfl⟩
+
 /-! ## what the oracle replays is the transition system the theorems are about -/
 
 /-- **exec_reach (Redis).**  Every state the oracle's schedule replay goes through is a reachable
